@@ -231,6 +231,33 @@ pub fn run(ctx: &Arc<Ctx>) {
             }
         }
     }
+    // crafted nonces whose KDF output for a 1-byte (thorough: also 2-byte) message is all zero: step A5 must pick another k
+    {
+        let d = hb(ANNEX_D);
+        let pk = sm2::g_mul(&d);
+        for klen in ctx.tier.pick(vec![1usize], vec![1, 2]) {
+            let mut k = SplitMix::new(ctx.seed, "c05zerot").nonzero_below(&(&n - (BigUint::from(1u32) << 40)));
+            let mut s = sm2::mul(&k, &pk);
+            let mut found = 0;
+            let mut tries = 0u64;
+            while found < 2 && tries < (1 << 22) {
+                let (x2, y2) = sm2::xy_bytes(&s);
+                if sm3::kdf(&[&x2[..], &y2[..]].concat(), klen).iter().all(|b| *b == 0) {
+                    for (c1c3c2, compressed) in [(false, false), (true, true)] {
+                        cases.push(Case::Enc { d: ANNEX_D.into(), k: hexbig(&k), msg_len: klen, msg_class: "seed".into(), c1c3c2, compressed, tag: "nonce-with-all-zero-kdf".into() });
+                    }
+                    found += 1;
+                }
+                s = sm2::add(&s, &pk);
+                k += 1u32;
+                tries += 1;
+            }
+            ctx.cov(&format!("crafted_all_zero_kdf_nonces_klen{}", klen), json!(found));
+            if found == 0 {
+                ctx.machinery_error("no nonce with all-zero KDF output found");
+            }
+        }
+    }
     for l in ctx.tier.pick(vec![1000usize, 4096], vec![1000, 4096, 65535, 65536]) {
         cases.push(Case::Enc { d: ANNEX_D.into(), k: ANNEX_K.into(), msg_len: l, msg_class: "seed".into(), c1c3c2: true, compressed: false, tag: "long".into() });
     }
